@@ -83,7 +83,7 @@ fn kdf_cases(run: &mut Run, rng: &mut Rng, n: usize) {
                 let r0_ = rng.next();
                 let roc = *rng.pick(&[0u32, 1, 0xffff, 0x10000, u32::MAX, r0_ as u32]);
                 let r0_ = rng.next();
-                let idx = *rng.pick(&[0u32, 1, 0x7fff_ffff, r0_ as u32 & 0x7fff_ffff]);
+                let idx = *rng.pick(&[0u32, 1, 0xffff, 0x10000, 0x0123_4567, 0x7fff_ffff, r0_ as u32 & 0x7fff_ffff]);
                 let iv = if prof == "gcm" { "-".to_string() } else { hex(&c.verif_build_iv(seq, roc)) };
                 // the AES-CM SRTCP IV is built inline in `cipher_rtcp`: compare its first keystream block
                 let rks = if prof == "gcm" { "-".to_string() } else { let mut z = [0u8; 24]; c.verif_cipher_rtcp(&mut z, idx); hex(&z[8..]) };
@@ -416,6 +416,7 @@ fn emit(run: &mut Run, stream: &str, c: &Case) {
     // and the index of the last packet the reference accepted (webrtc-srtp tracks the *last* packet, not the highest)
     let mut high: std::collections::BTreeMap<(usize, u32), u64> = Default::default();
     let mut ref_last: std::collections::BTreeMap<(usize, u32), u64> = Default::default();
+    let mut sent_rtcp: std::collections::BTreeMap<(usize, u32), u32> = Default::default();
     for (i, op) in c.ops.iter().enumerate() {
         // decide expectation / mirroring before executing
         let mut expect_ok = false;
@@ -437,6 +438,7 @@ fn emit(run: &mut Run, stream: &str, c: &Case) {
         }
         if key.is_some() && !mirror && three { run.count("ref_skipped_outside_its_window"); }
         if let Op::SetState(s, false, ssrc, roc, Some(l), _) = op { high.insert((*s, *ssrc), ((*roc as u64) << 16) | *l as u64); }
+        if let Op::SetState(s, true, ssrc, _, _, idx) = op { sent_rtcp.insert((*s, *ssrc), *idx); }
         match (op, &r) {
             (Op::ProtectRtp(s, spec), Res::Bytes(b)) => {
                 run.count(&format!("protect_rtp:{}", w.prof[*s]));
@@ -474,10 +476,15 @@ fn emit(run: &mut Run, stream: &str, c: &Case) {
                 if sync {
                     let plain = w.slot_plain.last().unwrap();
                     let ssrc = u32::from_be_bytes([plain[4], plain[5], plain[6], plain[7]]);
-                    if let Some(st) = w.sess[*s].verif_tx_snapshot().iter().find(|x| x.0 == ssrc) {
+                    // the SRTCP index the sender MUST use: one more than for its previous SRTCP packet of this SSRC
+                    // (counted from the script, not read from the implementation; presets count as the start)
+                    let e = sent_rtcp.entry((*s, ssrc)).or_insert(0u32);
+                    *e = e.wrapping_add(1);
+                    let want_index = *e;
+                    {
                         let k = &w.keys[*s];
                         // E = 1 for the encrypting profiles, E = 0 (clear) for the NULL cipher
-                        let r = ref3711::protect_rtcp(&w.prof[*s], &k.0, &k.1, plain, st.3, w.prof[*s] != "null");
+                        let r = ref3711::protect_rtcp(&w.prof[*s], &k.0, &k.1, plain, want_index, w.prof[*s] != "null");
                         run.count("ref3711_rtcp_compared");
                         if r[..] != b[..] { run.fail(&format!("interop:ref3711-rtcp-protect-bytes-differ:{}:{}", w.prof[*s], c.kind), &case, &format!("op {i}: ours {} rfc {}", hex(b), hex(&r))); }
                     }
@@ -721,9 +728,56 @@ fn many_ssrc_cases(run: &mut Run, rng: &mut Rng) {
 }
 
 
-/// The `MAX_RX_CONTEXTS` cap: 1023 streams fill the receiver; the 1024th SSRC is still accepted, the
-/// 1025th is refused (nothing touched) while all are live, known SSRCs keep working, and once the others
-/// have idled out a new SSRC gets in again (either a known or the new stream arriving first).
+
+/// MORE THAN 32 SSRCs where the stream under test stays ACTIVE (positive expectation, nothing known):
+/// `active-stream`      G (ROC 1) and 33 other streams all send every 25 s for 100 s — every
+///                      G packet must be accepted (a context that is in use is never "idle", whatever its age);
+/// `active-stream-rtcp` G's media is muted but its SRTCP keeps flowing every 25 s; media resumes after 100 s;
+/// `keep-ssrc-rtcp`     G idles 61 s and resumes with an RTCP packet BEFORE its media (the exemption of the
+///                      SSRC being processed must hold on the RTCP paths too, on both sides).
+fn active_stream_cases(run: &mut Run, rng: &mut Rng) {
+    for (pi, prof) in PROFILES.iter().enumerate() {
+        for kind in ["active-stream", "active-stream-rtcp", "keep-ssrc-rtcp"] {
+            let mut ops = new_pair(rng, pi, prof);
+            let g = 0x0a0b_0c0du32;
+            let mut slot = 0;
+            for k in 0..33u32 { ops.push(Op::ProtectRtp(0, PktSpec::simple(5, 0x2000 + k, vec![1, 2, 3]))); ops.push(Op::UnprotectRtp(1, Src::Slot(slot))); slot += 1; }
+            for seq in [65000u16, 65500, 100, 200] { ops.push(Op::ProtectRtp(0, PktSpec::simple(seq, g, vec![seq as u8, 2]))); ops.push(Op::UnprotectRtp(1, Src::Slot(slot))); slot += 1; }
+            ops.push(Op::ProtectRtcp(0, Src::Lit(rtcp_packet(rng, g, 12)))); ops.push(Op::UnprotectRtcp(1, Src::Slot(slot))); slot += 1;
+            let mut seq = 200u16;
+            if kind == "keep-ssrc-rtcp" {
+                ops.push(Op::Tick(61));
+                ops.push(Op::ProtectRtcp(0, Src::Lit(rtcp_packet(rng, g, 16)))); ops.push(Op::UnprotectRtcp(1, Src::Slot(slot))); slot += 1;
+            } else {
+                // three rounds, 25 s apart: ALL other streams send first (they stay alive, the tables stay above the
+                // high-water mark, and their packets run the idle eviction on both sides), then G
+                for round in 0..3u16 {
+                    ops.push(Op::Tick(25));
+                    for k in 0..33u32 { ops.push(Op::ProtectRtp(0, PktSpec::simple(6 + round, 0x2000 + k, vec![9]))); ops.push(Op::UnprotectRtp(1, Src::Slot(slot))); slot += 1; }
+                    if kind == "active-stream" {
+                        seq += 10;
+                        ops.push(Op::ProtectRtp(0, PktSpec::simple(seq, g, vec![seq as u8, 3]))); ops.push(Op::UnprotectRtp(1, Src::Slot(slot))); slot += 1;
+                    } else {
+                        ops.push(Op::ProtectRtcp(0, Src::Lit(rtcp_packet(rng, g, 12)))); ops.push(Op::UnprotectRtcp(1, Src::Slot(slot))); slot += 1;
+                    }
+                }
+                ops.push(Op::Tick(25));
+                for k in 0..33u32 { ops.push(Op::ProtectRtp(0, PktSpec::simple(20, 0x2000 + k, vec![9]))); ops.push(Op::UnprotectRtp(1, Src::Slot(slot))); slot += 1; }
+            }
+            for d in [100u16, 101] { ops.push(Op::ProtectRtp(0, PktSpec::simple(seq + d, g, vec![d as u8, 7]))); ops.push(Op::UnprotectRtp(1, Src::Slot(slot))); slot += 1; }
+            ops.push(Op::ProtectRtcp(0, Src::Lit(rtcp_packet(rng, g, 12)))); ops.push(Op::UnprotectRtcp(1, Src::Slot(slot)));
+            ops.push(Op::Snap(0)); ops.push(Op::Snap(1));
+            let kind: &'static str = match kind { "active-stream" => "active-stream", "active-stream-rtcp" => "active-stream-rtcp", _ => "keep-ssrc-rtcp" };
+            emit(run, "sess", &Case { ops, expect: Expect::Sync, kind, three: false });
+        }
+    }
+}
+
+/// Around the `MAX_RX_CONTEXTS` cap (a deliberate memory bound, C07): 1023 streams fill the receiver; the
+/// 1024th SSRC must be accepted, known SSRCs keep working, and once the others have idled out a new SSRC
+/// gets in again (a known or the new stream arriving first). The 1025th live stream — RTP or RTCP — is
+/// REFUSED by the current code: C04 ("any number of SSRCs") expects it to be accepted, so that refusal is
+/// reported as `roundtrip:{rtp,rtcp}-genuine-rejected:<profile>:rx-cap` = KNOWN FINDING (`rx_cap_witness`).
 fn cap_cases(run: &mut Run, rng: &mut Rng) {
     const CAP: u32 = 1024;
     for (pi, prof) in PROFILES.iter().enumerate() {
@@ -739,10 +793,10 @@ fn cap_cases(run: &mut Run, rng: &mut Rng) {
                 want.push((ops.len() - 1, ok, what));
             };
             rtp(&mut ops, &mut want, &mut slot, a, 1, true, "ssrc-number-cap-refused");
-            rtp(&mut ops, &mut want, &mut slot, b, 1, false, "new-ssrc-accepted-beyond-cap");
+            rtp(&mut ops, &mut want, &mut slot, b, 1, true, "RXCAP-RTP");
             rtp(&mut ops, &mut want, &mut slot, a, 2, true, "known-ssrc-refused-at-cap");
             ops.push(Op::ProtectRtcp(0, Src::Lit(rtcp_packet(rng, c, 12)))); ops.push(Op::UnprotectRtcp(1, Src::Slot(slot))); slot += 1;
-            want.push((ops.len() - 1, false, "new-rtcp-ssrc-accepted-beyond-cap"));
+            want.push((ops.len() - 1, true, "RXCAP-RTCP"));
             ops.push(Op::Tick(61));
             if new_first {
                 rtp(&mut ops, &mut want, &mut slot, b, 2, true, "new-ssrc-refused-although-all-idle");
@@ -757,7 +811,10 @@ fn cap_cases(run: &mut Run, rng: &mut Rng) {
             run.count("case_kind:rx-cap");
             if res[2].text() != format!("ok{}", CAP - 1) { run.fail(&format!("cap:fill-not-accepted:{prof}"), &format!("sessw {input}"), &res[2].text()); }
             for (i, ok, what) in want {
-                if res[i].is_ok() != ok { run.fail(&format!("cap:{what}:{prof}"), &format!("sessw {input}"), &format!("op {i} {} → {}", ops[i].text(), res[i].text())); }
+                if res[i].is_ok() != ok {
+                    let sig = match what { "RXCAP-RTP" => format!("roundtrip:rtp-genuine-rejected:{prof}:rx-cap"), "RXCAP-RTCP" => format!("roundtrip:rtcp-genuine-rejected:{prof}:rx-cap"), w => format!("cap:{w}:{prof}") };
+                    run.fail(&sig, &format!("sessw {input}"), &format!("op {i} {} → {}", ops[i].text(), res[i].text()));
+                }
             }
             // after the idle time only the streams used since then are left
             if let Res::Snap(rx, _) = res.last().unwrap() { if rx.len() > 2 { run.fail(&format!("cap:idle-contexts-not-evicted:{prof}"), &format!("sessw {input}"), &format!("{} contexts", rx.len())); } }
@@ -876,6 +933,7 @@ pub fn run(args: &Args) {
     ext_cases(&mut run, &mut rng, t);
     bigstate_cases(&mut run, &mut rng, t);
     many_ssrc_cases(&mut run, &mut rng);
+    active_stream_cases(&mut run, &mut rng);
     cap_cases(&mut run, &mut rng);
     badkey_cases(&mut run, &mut rng);
     let nh = if t { 6000 } else { 700 };
